@@ -106,11 +106,14 @@ Definition bad (cases : list lcase) : list (nat * nat) :=
   filter (fun p => negb (Nat.eqb (snd p) 0)) (index_from 0 (map check cases)).
 
 (** which schedules would break the property in the single-[with] variant (reported in
-    the histogram: the schedules do exercise the race) *)
-Definition racy (cases : list lcase) : list (nat * nat) :=
-  index_from 0 (map (fun c =>
-    if accepts (rev (log (run_sched (macro (cfg_of c true)) (init (prog_of c)) (l_sched c))))
-    then 0 else 1) cases).
+    the histogram: the schedules do exercise the race): bit 4 of the code *)
+Definition racy_code (c : lcase) : nat :=
+  if accepts (rev (log (run_sched (macro (cfg_of c true)) (init (prog_of c)) (l_sched c))))
+  then 0 else 4.
+
+Definition bad_racy (cases : list lcase) : list (nat * nat) :=
+  filter (fun p => negb (Nat.eqb (snd p) 0))
+         (index_from 0 (map (fun c => check c + racy_code c) cases)).
 
 (** ** supporting evidence: enter/exit stamps of real threads / processes.
     Intervals [(enter, exit)] (nanoseconds, shifted) must be pairwise disjoint. *)
